@@ -28,6 +28,8 @@ type Ctx struct {
 	isModFn   map[*ssa.Function]bool
 	byObj     map[*types.Func]*ssa.Function
 	implCache map[*types.Func][]*ssa.Function
+	roots      map[*ssa.Function]string
+	reachCache map[*ssa.Function]map[*ssa.Function]bool
 	lres      map[*ssa.Function]*lockResult
 	lentry    map[*ssa.Function]map[lockKey]string
 	silent    bool // engines evaluate without recording (wrapper summaries)
